@@ -97,6 +97,17 @@ func execute(r *mon.Report, rc runCfg) outcome {
 		cfg.PDeletePod, cfg.PDrift = 0.5, 0.5
 	}
 	cfg.OnePodPerNode = rng.Intn(3) == 0
+	if rc.mode == "cand-vanish" {
+		// many small nodes whose pods can share one node: multi-node consolidation replaces several of them by one
+		kind = "underutilized-many-small-nodes"
+		cfg.Scenario.Pod = gen.PodCfg{MaxCPUMilli: 400}
+		cfg.Scenario.MinPools, cfg.Scenario.MaxPools = 1, 1
+		cfg.Scenario.Pool.PRequirement, cfg.Scenario.Pool.PCustomLabel = 0, 0
+		cfg.Scenario.Catalog.MinTypes, cfg.Scenario.Catalog.MaxTypes = 8, 12
+		cfg.Rounds, cfg.PodsPerRound = 6, 2
+		cfg.PDeletePod, cfg.PDrift = 0.25, 0
+		cfg.OnePodPerNode, cfg.SmallPods = false, true
+	}
 	d := common.BuildDisruption(rng, cfg)
 	e := d.Env
 	e.Provider.Policy = "cheapest"
@@ -204,11 +215,14 @@ func execute(r *mon.Report, rc runCfg) outcome {
 				inflight[cand.Name()] = true
 				everInflight[cand.NodeClaim.Name] = true
 			}
-			if cmd == nil {
+			if cmd == nil || (rc.mode == "cand-vanish" && len(cmd.Candidates) < 2 && len(c.Candidates) >= 2) {
 				cmd = c
 			}
 		}
 		_ = e.SyncState()
+	}
+	if cmd != nil && len(cmd.Candidates) >= 2 && len(cmd.Replacements) >= 1 {
+		r.Inc("commands_with_several_candidates_and_a_replacement")
 	}
 	if cmd != nil {
 		out.startedCmd, out.cmdDesc, out.cmdReplace, out.cmdCands, out.reason = true, cmd.String(), len(cmd.Replacements), len(cmd.Candidates), string(cmd.Reason())
@@ -292,8 +306,27 @@ func execute(r *mon.Report, rc runCfg) outcome {
 	steps := 0
 	if cmd != nil {
 		refresh()
-		vanished, stalled := false, false
+		vanished, stalled, candGone := false, false, false
 		for steps = 0; steps < 40 && !crashed; steps++ {
+			if rc.mode == "cand-vanish" && !candGone && steps >= 1 && len(cmd.Candidates) >= 2 {
+				// a candidate that is not the last one disappears on its own while the command waits (spot interruption,
+				// manual delete): its Node and NodeClaim are gone and cluster state hears about it
+				candGone = true
+				gone := cmd.Candidates[len(cmd.Candidates)-2]
+				if nc := (&v1.NodeClaim{}); e.API.Raw.Get(context.Background(), types.NamespacedName{Name: gone.NodeClaim.Name}, nc) == nil {
+					if n := d.NodeOfClaim(nc); n != nil {
+						n.Finalizers = nil
+						_ = e.API.Raw.Update(context.Background(), n)
+						_ = e.API.Raw.Delete(context.Background(), n)
+					}
+					e.Provider.Vanish(nc.Status.ProviderID)
+					nc.Finalizers = nil
+					_ = e.API.Raw.Update(context.Background(), nc)
+					_ = e.API.Raw.Delete(context.Background(), nc)
+					_ = e.SyncState()
+					r.Inc("candidate_vanished_while_command_waits")
+				}
+			}
 			allInit := true
 			for _, c := range reps {
 				if !c.dead && c.stage != world.StageInitialized {
@@ -314,7 +347,7 @@ func execute(r *mon.Report, rc runCfg) outcome {
 			case x == 8:
 				e.Clock.Step(time.Duration(5+srng.Intn(60)) * time.Second)
 			default:
-				if rc.mode == "vanish" && !vanished && len(reps) > 0 {
+				if (rc.mode == "vanish" || (rc.mode == "cand-vanish" && candGone)) && !vanished && len(reps) > 0 {
 					// a replacement disappears (ICE / liveness): remove the NodeClaim object entirely
 					c := reps[srng.Intn(len(reps))]
 					nc := &v1.NodeClaim{}
@@ -523,7 +556,7 @@ func run(r *mon.Report, tier string, idx int, rng *rand.Rand) {
 	_, kinds, stride := sizes(tier)
 	seed := rng.Int63()
 	script := rng.Int63()
-	mode := []string{"normal", "late", "vanish", "stall", "normal", "late", "vanish", "stall"}[idx%8]
+	mode := []string{"normal", "late", "vanish", "stall", "cand-vanish", "late", "vanish", "stall"}[idx%8]
 	base := execute(r, runCfg{mode: mode, seed: seed, idx: idx, script: script})
 	r.Eval()
 	if !base.startedCmd {
@@ -562,7 +595,7 @@ var _ = corev1.Pod{}
 func init() {
 	reg.Register(&reg.Prop{
 		ID: "C08", Level: "fault_enumeration",
-		Rule:  "each case = one scenario (cluster grown through the real pipeline; drift with pods / underutilised / mixed so that replace and delete commands arise) + orchestration script (queue reconciles interleaved in PRNG order with the replacements being launched, registered and initialised by the real lifecycle controller and the kubelet actor; modes: normal, a replacement vanishes, replacements stall past the retry deadline, replacements initialise only after the deadline). The scenario runs once fault-free to count K API + provider calls from the round that starts the command to the end of the script, then once per k (stride 2 in quick) and error kind {500, 409, (404), crash+restart}. Monitors: candidate NodeClaim deletes by the orchestration queue judged synchronously against the replacements' Initialized condition; failed or crashed actions must not have deleted candidates and must have taint / DisruptionReason / deletion mark removed within 5 fault-free reconciles; no node in two commands. evaluations = executions; non-trivial = scenarios in which a command was started; distinct by (mode, reason, #replacements, #candidates, success).",
+		Rule:  "each case = one scenario (cluster grown through the real pipeline; drift with pods / underutilised / mixed so that replace and delete commands arise) + orchestration script (queue reconciles interleaved in PRNG order with the replacements being launched, registered and initialised by the real lifecycle controller and the kubelet actor; modes: normal, a replacement vanishes, a non-last candidate vanishes and then a replacement, replacements stall past the retry deadline, replacements initialise only after the deadline). The scenario runs once fault-free to count K API + provider calls from the round that starts the command to the end of the script, then once per k (stride 2 in quick) and error kind {500, 409, (404), crash+restart}. Monitors: candidate NodeClaim deletes by the orchestration queue judged synchronously against the replacements' Initialized condition; failed or crashed actions must not have deleted candidates and must have taint / DisruptionReason / deletion mark removed within 5 fault-free reconciles; no node in two commands. evaluations = executions; non-trivial = scenarios in which a command was started; distinct by (mode, reason, #replacements, #candidates, success).",
 		Cases: cases, Run: run,
 		MinObserved: map[string]int{"scenarios_with_command": 8, "candidate_deletes_observed": 50, "rollback_checks": 30},
 	})
